@@ -453,6 +453,114 @@ def oracle_sockets(case):
                 sample={"calls": [(c["name"], c["params"], c["result"]) for c in case["calls"]], "style": case["style"], "server": h.label})
 
 
+@st.composite
+def reuse_cases(draw):
+    """One proxy used for a sequence of calls through objects the caller keeps: the proxy itself, a namespace object
+    (proxy.ns), a bound leaf (proxy.ns.m), the _notify accessor and a namespace below it, MultiCall objects"""
+    prefix = draw(st.lists(ident, min_size=1, max_size=2))
+    leaves = draw(st.lists(ident, min_size=2, max_size=3, unique=True))
+    values = gen.json_values(4)
+    steps = []
+    for _ in range(draw(st.integers(3, 7))):
+        steps.append({"via": draw(st.sampled_from(["proxy", "namespace", "namespace", "leaf", "leaf", "notify", "notify-namespace", "multicall"])),
+                      "leaf": draw(st.integers(0, len(leaves) - 1)),
+                      "params": draw(gen.pick(st.lists(values, max_size=2), st.dictionaries(st.sampled_from(["a", "b"]), values, max_size=2))),
+                      "result": draw(values)})
+    return {"prefix": prefix, "leaves": leaves, "steps": steps, "version": draw(st.sampled_from([1.0, 2.0])),
+            "server_version": draw(st.sampled_from([1.0, 2.0]))}
+
+
+def oracle_reuse(case):
+    from jsonrpclib import jsonrpc as J
+    from jsonrpclib.SimpleJSONRPCServer import SimpleJSONRPCDispatcher
+    from jsonrpclib.config import Config
+    from jsonrpclib.history import History
+    from vlib.loopback import DispatcherTransport
+
+    for n in case["prefix"] + case["leaves"]:
+        if not name_ok(n, "chain") or not name_ok(n, "batch-chain"):
+            raise Skip()
+    scfg = Config(version=case["server_version"])
+    disp = SimpleJSONRPCDispatcher(config=scfg)
+    ccfg = Config(version=case["version"])
+    tr = DispatcherTransport(ccfg, disp)
+    history = History()
+    proxy = J.ServerProxy("http://loopback/", transport=tr, config=ccfg, version=case["version"], history=history)
+    log = []
+    current = {}
+    names = [".".join(case["prefix"] + [leaf]) for leaf in case["leaves"]]
+    for full in names:
+        def target(*a, _n=full, **k):
+            log.append((_n, list(a), dict(k)))
+            return current["result"]
+        disp.register_function(target, full)
+
+    def walk(obj, segs):
+        for seg in segs:
+            obj = getattr(obj, seg)
+        return obj
+
+    # the objects a caller may keep
+    held = {"namespace": walk(proxy, case["prefix"]), "notify": proxy._notify, "notify-namespace": walk(proxy._notify, case["prefix"])}
+    held_leaves = {}
+    exchanges = 0
+    used = set()
+    for i, st_ in enumerate(case["steps"]):
+        leaf = case["leaves"][st_["leaf"]]
+        full = ".".join(case["prefix"] + [leaf])
+        params = st_["params"]
+        current["result"] = st_["result"]
+        before = len(log)
+        via = st_["via"]
+        used.add(via)
+        try:
+            if via == "proxy":
+                m = walk(proxy, case["prefix"] + [leaf])
+            elif via == "namespace":
+                m = getattr(held["namespace"], leaf)
+            elif via == "leaf":
+                if leaf not in held_leaves:
+                    held_leaves[leaf] = walk(proxy, case["prefix"] + [leaf])
+                m = held_leaves[leaf]
+            elif via == "notify":
+                m = walk(held["notify"], case["prefix"] + [leaf])
+            elif via == "notify-namespace":
+                m = getattr(held["notify-namespace"], leaf)
+            else:
+                mc = J.MultiCall(proxy, ccfg)
+                m = walk(mc, case["prefix"] + [leaf])
+            got = m(**params) if isinstance(params, dict) else m(*params)
+            if via == "multicall":
+                got = list(mc())
+                if len(got) != 1:
+                    fail("C01/batch-result", "step %d: a MultiCall of one call yielded %r" % (i, got))
+                got = got[0]
+        except Violation:
+            raise
+        except Exception as ex:
+            fail("C01/call-raised:%s" % type(ex).__name__, "step %d (%s via a kept %s object) raised %s: %s" % (i, full, via, type(ex).__name__, str(ex)[:200]),
+                 {"steps": [(s_["via"], case["leaves"][s_["leaf"]]) for s_ in case["steps"][:i + 1]]})
+        exchanges += 1
+        p = gen.norm(params)
+        want = (full, p if isinstance(p, list) else [], p if isinstance(p, dict) else {})
+        new = [(n, gen.norm(a), gen.norm(k)) for n, a, k in log[before:]]
+        if len(new) != 1 or new[0][0] != want[0] or not gen.strict_eq(new[0][1], want[1]) or not gen.strict_eq(new[0][2], want[2]):
+            fail("C01/invocations", "step %d: %s through a kept %s object invoked %r, expected exactly %r" % (i, full, via, new, want),
+                 {"steps": [(s_["via"], case["leaves"][s_["leaf"]]) for s_ in case["steps"][:i + 1]]})
+        if via.startswith("notify"):
+            if got is not None:
+                fail("C01/notify-result", "step %d: notification returned %r" % (i, got))
+        elif not gen.strict_eq(got, gen.norm(st_["result"])):
+            fail("C01/result", "step %d: %s returned %r, expected %r" % (i, full, got, st_["result"]))
+        seen = list(tr.exchanged)
+        if [r for r, _ in seen] != history.requests or [r for _, r in seen] != history.responses or len(seen) != exchanges:
+            fail("C01/history-requests", "after %d calls the History holds %d requests / %d responses, the transport exchanged %d" % (
+                exchanges, len(history.requests), len(history.responses), len(seen)))
+    repeated = len(case["steps"]) - len(set((s_["via"], s_["leaf"]) for s_ in case["steps"]))
+    return Info(nt=True, classes=["reuse", "v%.1f" % case["version"]] + sorted("kept:" + u for u in used) + (["same-object-twice"] if repeated else []),
+                sample={"prefix": case["prefix"], "leaves": case["leaves"], "steps": [(s_["via"], s_["leaf"]) for s_ in case["steps"]]})
+
+
 SUBS = [
     Sub("loopback", oracle_loopback, strategy=lambda tier: cases(False),
         budget={"quick": 8000, "thorough": 150000}, shards={"quick": 12, "thorough": 16},
@@ -461,6 +569,9 @@ SUBS = [
     Sub("re-registration", oracle_reregistration, strategy=lambda tier: reregistration_cases(),
         budget={"quick": 2000, "thorough": 30000}, shards={"quick": 4, "thorough": 8},
         what="the callable behind a name is replaced or removed between calls (function table and instance trees)"),
+    Sub("reuse", oracle_reuse, strategy=lambda tier: reuse_cases(),
+        budget={"quick": 2500, "thorough": 40000}, shards={"quick": 4, "thorough": 8},
+        what="sequences of calls on one proxy through objects the caller keeps (namespace, bound method, _notify accessor, MultiCall), History accumulating"),
     Sub("sockets", oracle_sockets, strategy=lambda tier: cases(True), setup=farm_setup, teardown=farm_teardown,
         budget={"quick": 1200, "thorough": 20000}, shards={"quick": 4, "thorough": 8},
         time_cap={"quick": 100, "thorough": 1500},
